@@ -56,6 +56,17 @@ mod imp {
         let vb: Vec<f64> = enc_vec(b);
         catch(|| Cell::f(va.vcorr(&vb, mp, CorrMethod::Spearman)))
     }
+    /// Spearman on integer series given as base + offset (integers f64 cannot tell apart)
+    pub fn spearman_i64(a: &[Option<i64>], b: &[Option<i64>], mp: Option<usize>, optional: bool) -> Outcome<Cell> {
+        if optional {
+            let (va, vb) = (a.to_vec(), b.to_vec());
+            catch(|| va.vcorr(&vb, mp, CorrMethod::Spearman).dec())
+        } else {
+            let va: Vec<i64> = a.iter().map(|v| v.unwrap()).collect();
+            let vb: Vec<i64> = b.iter().map(|v| v.unwrap()).collect();
+            catch(|| Cell::f(va.vcorr(&vb, mp, CorrMethod::Spearman)))
+        }
+    }
     pub fn pearson_x(a: &[X], b: &[X], mp: Option<usize>) -> Outcome<Cell> {
         let va: Vec<f64> = enc_vec(a);
         let vb: Vec<f64> = enc_vec(b);
@@ -395,6 +406,25 @@ fn check_spearman(word: &[u8], alpha: &[X], ctx: &mut Ctx) {
                 }
             }
         }
+        // translation relation on 64-bit integers (a strictly increasing map): the ranks of base + offsets are the
+        // ranks of the offsets, also where neighbouring integers are not distinct f64 values
+        if a.iter().chain(b.iter()).flatten().all(|v| v.fract() == 0.0) {
+            for (bname, base) in [("2^60", 1i64 << 60), ("-2^60", -(1i64 << 60)), ("i64::MAX-4", i64::MAX - 4)] {
+                let ia: Vec<Option<i64>> = a.iter().map(|v| v.map(|x| base + x as i64)).collect();
+                let ib: Vec<Option<i64>> = b.iter().map(|v| v.map(|x| base + x as i64)).collect();
+                let nulls = ia.iter().chain(ib.iter()).any(|v| v.is_none());
+                for optional in [true, false] {
+                    if nulls && !optional {
+                        continue;
+                    }
+                    let t = spearman_i64(&ia, &ib, mp, optional);
+                    ctx.evals += 1;
+                    if !matches!((&got, &t), (Outcome::Ok(x), Outcome::Ok(y)) if tol_eq(x, y)) {
+                        viol(ctx, "vcorr(Spearman) translation (i64)", None, json!({"family": fam, "word": word, "first": json_word(&a), "second": json_word(&b), "base": bname, "elem": if optional { "Option<i64>" } else { "i64" }, "min_periods": mp}), format!("{got:?}"), format!("{t:?}"));
+                    }
+                }
+            }
+        }
         // Pearson method equals the plain aggregation
         let p = pearson_x(&a, &b, mp);
         let (qa, qb) = mc_ref::roll::pairs(&a, &b);
@@ -516,7 +546,7 @@ fn main() {
     watch.done.store(true, AO::SeqCst);
     total.sample(json!({"op": "half_life", "series": "ramp 0..40", "min_periods": 1, "model": 39}));
     let meta = Meta {
-        rule: "half_life: the ramp family (len 1..=N, every min_periods: realises every (len, L) pair hence every path of the doubling search and of the bisection), square-wave / staircase / alternating profiles, AR(1)-type paths with every persistence 0, 0.05, .., 0.95, 0.99 under three fixed innovation patterns, and every word over {null,-1,0,1,2} up to length L with every min_periods (f64 and Option<f64>): no panic, returns (watchdog), result in 1..=len-1 (0 iff len < 2), and when the model's lag profile is a strict threshold profile the result is the first lag not above 0.5 capped at len-1. winsorize: every word of the value alphabet, and long structured series of 17..=64 elements (ramps, saws, plateaus, modular permutations, null patterns), x 3 methods x parameter grids: one output per input, nulls stay null, inside values bit-identical, outside values on the nearer model bound, order preserving. vcorr(Spearman): every pair word over {null,0,1,2,3}^2 with <= 1 null each: equals Pearson of average ranks; invariant under 2x+1, x^3, exp. Non-trivial = distinct words / (len, min_periods) points. Also winsorize on i32 / Option<i32> values whose sum leaves the type (winsorize-narrow; tolerance of the bounds relative to the data's magnitude; DESIGN 5.16).".into(),
+        rule: "half_life: the ramp family (len 1..=N, every min_periods: realises every (len, L) pair hence every path of the doubling search and of the bisection), square-wave / staircase / alternating profiles, AR(1)-type paths with every persistence 0, 0.05, .., 0.95, 0.99 under three fixed innovation patterns, and every word over {null,-1,0,1,2} up to length L with every min_periods (f64 and Option<f64>): no panic, returns (watchdog), result in 1..=len-1 (0 iff len < 2), and when the model's lag profile is a strict threshold profile the result is the first lag not above 0.5 capped at len-1. winsorize: every word of the value alphabet, and long structured series of 17..=64 elements (ramps, saws, plateaus, modular permutations, null patterns), x 3 methods x parameter grids: one output per input, nulls stay null, inside values bit-identical, outside values on the nearer model bound, order preserving. vcorr(Spearman): every pair word over {null,0,1,2,3}^2 with <= 1 null each: equals Pearson of average ranks; invariant under 2x+1, x^3, exp. Non-trivial = distinct words / (len, min_periods) points. Also winsorize on i32 / Option<i32> values whose sum leaves the type (winsorize-narrow; tolerance of the bounds relative to the data's magnitude; DESIGN 5.16). Round 8 (DESIGN 5.17): Spearman translation relation on i64 / Option<i64> series around +-2^60 and i64::MAX.".into(),
         bounds: json!({"ramp_len": run.pick(48, 96), "profile_len": run.pick(24, 56), "half_life_words_L": hl.max_len, "winsorize": {"alphabet": json_word(&wz.alpha), "L": wz.max_len, "q": [0, 0.01, 0.1, 0.25, 0.5], "k": [0, 0.5, 1, 3]}, "spearman_L": sp.max_len}),
         assumptions: vec!["profiles within 1e-6 of the 0.5 threshold are judged for totality and range only".into(), "finite exact inputs (DESIGN 5.2)".into()],
         exhaustive: true,
